@@ -41,6 +41,8 @@ pub struct TokenParser {
     llm_tokens: Vec<TokenId>,
     // indices into llm_tokens of EOS tokens that were accepted without adding any bytes
     eos_without_bytes: Vec<usize>,
+    // indices into llm_tokens of tokens the parser matched by id against forced "\xFF[id]" bytes
+    forced_by_id: Vec<usize>,
     llm_bytes: Vec<u8>,
 
     grm_prefix: Vec<u8>,
@@ -117,6 +119,7 @@ impl TokenParser {
             eos_tokens,
             llm_tokens: Vec::new(),
             eos_without_bytes: Vec::new(),
+            forced_by_id: Vec::new(),
             llm_bytes: Vec::new(),
             grm_prefix: Vec::new(),
             max_tokens_total: max_tokens,
@@ -399,12 +402,19 @@ impl TokenParser {
 
         let new_len = self.llm_tokens.len() - n_tokens;
         let mut bytes_to_drop = 0;
+        let mut parser_bytes_to_drop = 0;
         for (idx, tok) in self.llm_tokens.iter().enumerate().skip(new_len) {
             if self.eos_without_bytes.contains(&idx) {
                 // EOS accepted at the end of the grammar; it didn't add any bytes
             } else {
                 // this includes EOS tokens named by the grammar and consumed by the parser
                 bytes_to_drop += self.tok_trie().token_len(*tok);
+                parser_bytes_to_drop += if self.forced_by_id.contains(&idx) {
+                    // in the parser the token occupies the forced "\xFF[id]" bytes, not its own
+                    self.tok_trie().decode_as_special(*tok).len()
+                } else {
+                    self.tok_trie().token_len(*tok)
+                };
             }
         }
         ensure!(
@@ -414,11 +424,12 @@ impl TokenParser {
             self.llm_bytes.len()
         );
 
-        self.parser.rollback(bytes_to_drop)?;
+        self.parser.rollback(parser_bytes_to_drop)?;
 
         self.max_tokens_total = self.max_tokens_total.saturating_add(n_tokens);
         self.llm_tokens.truncate(new_len);
         self.eos_without_bytes.retain(|&idx| idx < new_len);
+        self.forced_by_id.retain(|&idx| idx < new_len);
         self.llm_bytes
             .truncate(self.llm_bytes.len() - bytes_to_drop);
         self.clear_caches();
@@ -583,6 +594,9 @@ impl TokenParser {
             return Err(self.stop_for_parser_error("", err));
         }
 
+        let forced_by_id = tok_bytes.first() != Some(&toktrie::TokTrie::SPECIAL_TOKEN_MARKER)
+            && self.parser.currently_forced_bytes().first() == Some(&toktrie::TokTrie::SPECIAL_TOKEN_MARKER);
+
         // now apply normally
         match self.parser.apply_token(tok_bytes, tok_id) {
             Err(e) => {
@@ -593,6 +607,9 @@ impl TokenParser {
             }
             Ok(backtrack_bytes0) => {
                 self.llm_bytes.extend_from_slice(tok_bytes);
+                if forced_by_id {
+                    self.forced_by_id.push(self.llm_tokens.len() - 1);
+                }
 
                 if backtrack_bytes0 != 0 {
                     self.had_backtrack = true;
@@ -638,6 +655,7 @@ impl TokenParser {
                     }
                     self.llm_tokens.truncate(token_ptr);
                     self.eos_without_bytes.retain(|&idx| idx < token_ptr);
+                    self.forced_by_id.retain(|&idx| idx < token_ptr);
                     return Ok(backtrack_tokens);
                 }
             }
